@@ -250,8 +250,15 @@ Definition av_xmlns_misplaced (ext : list ee) (xa : attrs) (tx : option string) 
   negb (attrs_eqb (wire_attrs xa ++ (if negb (is_empty (text_str tx)) || av_typed_empty ext xa tx
                                      then av_xmlns_of (av_get_type xa) else [])) xa).
 
+(* class 10 (C12-F10): the text member is None.  Only set_text(None) / .text = None under a type whose local name is
+   anyType gets there (to_text is the identity for that type; every other path of the constructor and of set_text
+   stores ""): parsing never leaves None in an AttributeValue (a fresh instance has text "", av_finish delivers Some),
+   so such an instance comes back with text "" - whatever else it carries *)
+Definition av_text_none (tx : option string) : bool := match tx with None => true | Some _ => false end.
+
 Definition av_known_class (ext : list ee) (xa : attrs) (tx : option string) : nat :=
-  if av_untyped_empty ext xa tx then 8
+  if av_text_none tx then 10
+  else if av_untyped_empty ext xa tx then 8
   else if av_ws_ext ext xa tx then 6
   else if av_xmlns_misplaced ext xa tx then 7
   else if av_typed_empty ext xa tx then 5 else 0.
